@@ -102,11 +102,15 @@ class Tally:
         self.maxlen = {}
         self.strs = set()
         self.toktypes = set()
+        self.maxint = 0
+        self.maxlimit = 0
 
     def add(self, scn):
         ast = scn["ast"]
         self.kinds[ast["k"]] = self.kinds.get(ast["k"], 0) + 1
         self.forms.add(scn["form"])
+        for x in ast.get("limit", []) + ast.get("offset", []) if ast["k"] == "select" else []:
+            self.maxlimit = max(self.maxlimit, x.get("i", 0))
         for t in scn["toks"]:
             self.toktypes.add(t[0])
             if t[2]:
@@ -121,6 +125,8 @@ class Tally:
                     self.ops.add(o["op"])
                 if k == "str":
                     self.strs.add(o["s"])
+                if k == "int":
+                    self.maxint = max(self.maxint, o["i"])
                 if "jt" in o:
                     self.jts.add(o["jt"])
                 if "dir" in o:
@@ -144,6 +150,10 @@ class Tally:
             m.append("empty string literal")
         if "QID" not in self.toktypes:
             m.append("delimited identifier")
+        if self.maxint < 2 ** 63 - 1:
+            m.append("integer literal 2^63-1")
+        if self.maxlimit < 2 ** 63 - 1:
+            m.append("LIMIT/OFFSET 2^63-1")
         for k in STMT_KINDS:
             if not self.kinds.get(k):
                 m.append("statement kind " + k)
@@ -264,6 +274,8 @@ def _run(ctx, pool):
         if fe.has_escape(scn["toks"]):
             scn["toks"] = fe.unescape(scn["toks"])
             scn["ast"] = fe.unescape(scn["ast"])
+        if any(t[0] == "INT" and len(t[1]) > 9 for t in scn["toks"]):
+            scn["ast"] = fe.bigints(scn["ast"])     # decimal text -> the integer it denotes
         long_ = wants_long(scn)
         with lock:
             nextid[0] += 1
